@@ -8,6 +8,7 @@ CONSTANTS
   MaxReq = 2
   MaxSteps = 0
   Bodies = TRUE
+  Porter = FALSE
 INVARIANT TypeOK
 INVARIANT PersistentNeverIdleDropped
 INVARIANT ClosedForAReason
